@@ -681,8 +681,15 @@ def declTokens (d : AnalyzedSource) (gd : Ref GlobalDecl) : Option (List Token) 
   | none => none
   | some toks => (toks.sub gd.val.info.range).map (·.toList)
 
-def semanticTokensGo (d : AnalyzedSource) : List (Ref GlobalDecl) → Pos → Except Panic (List SemTok)
-  | [], _ => .ok []
+/-- end (absolute token index) of the last global declaration; 0 without declarations -/
+def restStart (d : AnalyzedSource) : Nat :=
+  match d.ast.decls.getLast? with
+  | some gd => gd.offset + gd.val.info.range.hi
+  | none => 0
+
+/-- `semantic_tokens`: declaration by declaration, then the comments behind the last declaration. -/
+def semanticTokensFrom (d : AnalyzedSource) : List (Ref GlobalDecl) → Pos → Except Panic (List SemTok × Pos)
+  | [], prev => .ok ([], prev)
   | gd :: rest, prev =>
     match declTokens d gd with
     | none => .error ⟨"slice"⟩
@@ -690,12 +697,17 @@ def semanticTokensGo (d : AnalyzedSource) : List (Ref GlobalDecl) → Pos → Ex
       match collectToks d.text (semClassify d gd.val sl) sl 0 prev with
       | .error e => .error e
       | .ok (sts, prev') =>
-        match semanticTokensGo d rest prev' with
+        match semanticTokensFrom d rest prev' with
         | .error e => .error e
-        | .ok more => .ok (sts ++ more)
+        | .ok (more, p) => .ok (sts ++ more, p)
 
 def semanticTokens (d : AnalyzedSource) : Except Panic (List SemTok) :=
-  semanticTokensGo d d.ast.decls ⟨0, 0⟩
+  match semanticTokensFrom d d.ast.decls ⟨0, 0⟩ with
+  | .error e => .error e
+  | .ok (sts, prev) =>
+    match collectToks d.text (fun _ t => (mapTokenClass t).map (fun c => (c, 0))) (d.tokens.drop (restStart d)) 0 prev with
+    | .error e => .error e
+    | .ok (rest, _) => .ok (sts ++ rest)
 
 /-! ### completion.rs -/
 
